@@ -51,6 +51,9 @@ C11Params ==
     \cup { <<"rasgk", "list", n, 0, n, kx>> : n \in 1 .. 2, kx \in {100, 101, 104, 105} }
     \* xs + ys is a new list whatever the lengths (also when one side is empty): writes through it leave xs, ys alone
     \cup { <<"catfresh", "list", n, m, 0, 0>> : n \in 0 .. MaxLen, m \in 0 .. 2 }
+    \* pieces cut inside multi-byte characters: s[a:b] + s[c:d] is the bytes of the first, then of the second
+    \cup UNION { { <<"bytecat", "str", i, a, b, cx>> : a \in 0 .. Len(StrPool[i]), b \in 0 .. Len(StrPool[i]), cx \in 0 .. Len(StrPool[i]) }
+                 : i \in {j \in 1 .. Len(StrPool) : Len(StrPool[j]) \in 2 .. 5} }
 
 RhsKind(kx) == CASE kx = 100 -> ENull [] kx = 101 -> EBool(TRUE) [] kx = 104 -> EInt(5)
                  [] kx = 105 -> EObj(<<>>)
@@ -93,6 +96,21 @@ C11ProgOf(p) ==
               SOpAssign(EVar(Kv), "+", EList(<<EInt(50)>>)), SAssign(EIndex(EVar(Kv), EInt(0)), EInt(51)),
               SAssign(ERIndex(EVar(<<122>>), EInt(0), EInt(1)), EStr(<<113>>)),
               SPrint(EVar(Xs)), SPrint(EVar(Ys)), SPrint(EVar(Kv)), SPrint(EVar(<<122>>))>>
+      \* t := s[lo:hi], u := s[c:] ; (t + u) has len(t) + len(u) bytes, the k-th is t[k] or u[k - len(t)]
+      [] p[1] = "bytecat" ->
+            LET lo == IF p[4] <= p[5] THEN p[4] ELSE p[5]
+                hi == IF p[4] <= p[5] THEN p[5] ELSE p[4] IN
+            <<SDecl(EVar(Xs), s),
+              SDecl(EVar(Ys), ERIndex(EVar(Xs), EInt(lo), EInt(hi))), SDecl(EVar(<<122>>), ERIndex(EVar(Xs), EInt(p[6]), ENone)),
+              SDecl(EVar(<<119>>), EBin("+", EVar(Ys), EVar(<<122>>))),
+              \* (->len wants valid UTF-8: the bytes are counted by iterating)
+              SDecl(EVar(<<110>>), EInt(0)), SFor(EVar(N_us), EVar(<<119>>), <<SOpAssign(EVar(<<110>>), "+", EInt(1))>>),
+              SPrint(EBin("==", EVar(<<110>>), EInt((hi - lo) + (n - p[6])))),
+              SFor(EVar(Kv), EVar(Ys), <<SPrint(EBin("==", EIndex(EVar(<<119>>), EIndex(EVar(Kv), EInt(0))), EIndex(EVar(Kv), EInt(1))))>>),
+              SFor(EVar(Kv), EVar(<<122>>),
+                   <<SPrint(EBin("==", EIndex(EVar(<<119>>), EBin("+", EInt(hi - lo), EIndex(EVar(Kv), EInt(0)))), EIndex(EVar(Kv), EInt(1))))>>),
+              SDecl(EVar(<<118>>), EBin("+", EStr(<<120>>), EVar(Ys))), SOpAssign(EVar(<<118>>), "+", EVar(<<122>>)),
+              SPrint(EBin("==", ERIndex(EVar(<<118>>), EInt(1), ENone), EVar(<<119>>)))>>
       [] p[1] = "iasg" -> <<SDecl(EVar(Xs), s), SAssign(EIndex(EVar(Xs), Bnd(p[4])), EInt(99)),
                             SPrint(EVar(Xs))>>
       [] p[1] = "rasg" -> <<SDecl(EVar(Xs), s),
@@ -153,10 +171,11 @@ RangeAssignAliasDomain ==
             /\ pi[4] \in (0 .. SLen) \cup {OM} /\ pi[5] \in (0 .. SLen) \cup {OM}
             /\ Lo(pi[4]) < Hi(pi[5], SLen) /\ SLen = Hi(pi[5], SLen) - Lo(pi[4]))
 CatFresh == (Finished /\ Fam = "catfresh") => (out[1] = T_false /\ out[2] = T_false /\ out[3] = T_false)
+ByteCat == (Finished /\ Fam = "bytecat") => (status.k = "done" /\ \A i \in 1 .. Len(out) : out[i] = T_true)
 RangeAssignKind == (Finished /\ Fam = "rasgk") => status.k = "failed"
 \* any violation of a domain is a *reported* error, with a position
 OutOfDomainIsError == (status.k = "failed") => Located(status.diag)
 
 C11Laws == /\ IndexDomain /\ RangeDomain /\ RangeLaw /\ SplitJoin /\ ConcatLaw
-           /\ IndexAssignDomain /\ RangeAssignDomain /\ RangeAssignAliasDomain /\ CatFresh /\ RangeAssignKind /\ OutOfDomainIsError
+           /\ IndexAssignDomain /\ RangeAssignDomain /\ RangeAssignAliasDomain /\ CatFresh /\ ByteCat /\ RangeAssignKind /\ OutOfDomainIsError
 =============================================================================
